@@ -13,24 +13,35 @@ MANIFEST = dict(
     text=("(b) Bounded symbolic execution of the real add_constants (unyt_quantity, in_base, in_cgs, _check_em_conversion, "
           "_em_conversion, get_base_equivalent, _get_conversion_factor) on a registry of each of the 7 built-in unit systems with the "
           "table value of every constant replaced by a z3 real: X, every alias, X_mks and X_cgs have the SI magnitude v*scale(unit) "
-          "(charge constants in CGS: the documented factor 0.1*c statC/C) for ALL values v. Registry configurations: the same for a "
+          "(charge constants in CGS: the documented factor 0.1*c statC/C) for ALL values v, and X is written in symbols the registry's "
+          "system declares. The same for every spelling by which a registry gets its system (constructor with name / UnitSystem object, "
+          "attribute assigned a name / an object, copy, deepcopy, table handed to a new registry: family route/*) and for every state of "
+          "the namespace handed to add_constants (empty, filled by add_symbols of the same registry, filled with the constants of another "
+          "unit system, every documented key preset: family namespace/*; earlier objects neither reused nor touched, foreign keys kept). "
+          "Registry configurations: the same for a "
           "registry of each built-in system in which every row the system's units or the table's units are written in was given a "
           "new size (z3 positive real) with modify() - before the first use, or after constants had been built once - and for two "
           "user-defined systems on rows of symbolic size (one of them Gaussian: no MKS current); the expected magnitude is computed "
           "by the harness from the table unit string and the sizes it handed in. In-place histories: every name x guise of every "
           "constant is converted in place in turn (convert_to_mks / _cgs / _base / _units into a sibling guise's unit / into 1000 x "
           "its own unit; 7 systems) and after each conversion ALL names and guises of the constant must still be the tabulated "
-          "quantity, for all values; no two objects of a constants namespace (default namespace included) share memory. Forced "
+          "quantity, for all values, and every sibling must still carry the unit it had (only the converted object is relabelled); no two "
+          "keys of a constants namespace (default namespace included) share memory or are one object. Forced "
           "warm histories: plain registry after an edited one of the same system and vice versa. (a) and (c) are GROUND: defining "
           "relations (hbar=h/2pi, eps0*mu0*c^2=1, Stefan-Boltzmann, radiation constant, Rydberg, Planck units, qe=-qp, mu0=4pi 1e-7) "
           "and value-vs-CODATA/IAU classes as exact-rational z3 facts over the current floats; names that are both unit and constant "
-          "compared in SI."),
+          "compared in SI; the default namespace (unyt.physical_constants) under every name x {X, X_mks, X_cgs} + hmks/hcgs, its exported "
+          "name set, and object identity of every one of those keys at top level (constants win over units)."),
     design="DESIGN.md section 4 C15",
     technique="symbolic execution of the real Python code over z3 real terms; ground exact-rational SMT facts; counterexample replay")
 EXPLANATION = (
     "The solver's share is part (b): the value of every constant is a z3 real (any sign), the unit systems, names, aliases and suffixes "
     "are enumerated exhaustively, and per unit system one path of the real add_constants yields ~290 quantities whose SI magnitudes are "
-    "proved equal to v*scale(table unit) for all v (dimension vectors compared independently). Two further axes are walked with the "
+    "proved equal to v*scale(table unit) for all v (dimension vectors compared independently; the unit label of X must consist of symbols of the unit system the harness asked for, "
+    "which also pins that the registry kept that system). The same obligations are decided for 6 other spellings of 'a registry of system S' "
+    "(route/*: 7 systems x {UnitSystem object, assigned name, assigned object, copy, deepcopy, table copy}) and for 3 pre-filled namespaces "
+    "(namespace/*: 7 systems x {unit symbols of the registry, constants of another system, preset keys}): constants win over whatever was "
+    "there, objects handed out before are neither reused nor changed. Two further axes are walked with the "
     "same symbolic values. (1) The registry configuration (family registry/*): a custom registry of each built-in system whose rows "
     "were resized through the public modify() - every symbol that occurs in a unit of the system (kpc -> pc, Msun, Myr -> yr, AU, "
     "Mearth, ft, lb, l_geom, m_pl, erg, dyn ...) and every symbol a constant is tabulated in (m, g, s, K, mol, J, W, N), each new "
@@ -45,26 +56,34 @@ EXPLANATION = (
     "each of them in turn is converted IN PLACE (5 conversions that keep the quantity; 7 systems) and after every single conversion "
     "the conjunction 'every spelling and guise of this constant still has SI magnitude v*scale (charges in Gaussian form: "
     "v*0.1c statC)' is decided for all v - a buffer, unit object or cached number shared between two names makes a sibling read the "
-    "rescaled number under its old unit. Independently, numpy's overlap test must find no two distinct objects of a namespace "
-    "(every built namespace and unyt.physical_constants) on the same memory. Warm variants (history axis of the engine) add: the "
+    "rescaled number under its old unit; after every conversion the unit labels of all siblings are compared with what they were "
+    "(one object bound to two keys, e.g. X and X_mks where X cannot be reduced, would follow the conversion and leave the unit system "
+    "its name promises). Independently, numpy's overlap test must find no two keys of a namespace (every built namespace and "
+    "unyt.physical_constants) on the same memory or bound to one object. Warm variants (history axis of the engine) add: the "
     "plain registry of a system after an edited one and the other way round, in-place families after each other. "
     "Parts (a) and (c) are ground: the "
     "quantifier is the finite set of rows/relations; each float of the current tables is taken as an exact rational and the relation "
     "is asserted with a stated tolerance (float rounding 1e-13 for defining relations, CODATA 1e-6 / IAU 1e-3 classes for measured "
-    "values). The independent value table is the trusted base of (a)."
+    "values). The independent value table is the trusted base of (a). The import-time default namespace is ground as well (it is built "
+    "from the table floats before any harness runs): every name x guise of unyt.physical_constants against the table row (X_mks literally "
+    "the table number in the table unit, X_cgs the same quantity / the Gaussian reading of charges / absent for mu_0, eps_0), the set of "
+    "quantity-valued names the module exports = the documented set, and each of those keys bound to the very same object at top level."
 )
 BOUNDS = {
-    "quick": "all 39 constants x all alias names x {X, X_mks, X_cgs} x 7 built-in unit systems (symbolic values); x registry "
+    "quick": "all 39 constants x all alias names x {X, X_mks, X_cgs} x 7 built-in unit systems (symbolic values) x 7 spellings of the "
+             "registry's system x 4 namespace states (empty + 3 pre-fills; routes and pre-fills not crossed with each other); x registry "
              "configurations {plain, rows resized before use, rows resized after use} per built-in system (all symbols of the system's "
              "and the table's units resized at once, sizes symbolic; Gaussian/charge/offset rows not resized) + 2 user-defined systems "
              "(symbolic base sizes); in-place histories: 7 systems x 5 in-place conversions x every name x guise touched in turn "
              "(cumulatively within a constant), all names x guises of that constant read after each; no-shared-memory over all pairs of "
              "every namespace; forced warm pairs plain<->edited for 3 systems (thorough: 7) + the engine's sampled warm variants; "
-             "18 defining relations, 39 values vs CODATA/IAU class, every name that is both a unit and a constant (ground)",
+             "18 defining relations, 39 values vs CODATA/IAU class, every name that is both a unit and a constant, default namespace x all "
+             "names x 3 guises + legacy names + exported name set + top-level identity (ground)",
     "thorough": "same cases (the property's discrete space is finite and is covered in both tiers); forced warm pairs for all 7 systems and the "
                 "larger warm sample",
 }
-OUTSIDE = ("registry edits other than modify() of existing rows (remove/re-add, edits between the constants of one namespace: C12); resized "
+OUTSIDE = ("routes x pre-fills x edited registries are not crossed with each other (each axis is walked against the plain configuration of "
+           "the others); registry edits other than modify() of existing rows (remove/re-add, edits between the constants of one namespace: C12); resized "
            "Gaussian and charge/current rows (statC, G, C, A: the SI<->Gaussian charge route is a fixed documented factor) and offset rows; "
            "rows resized one at a time (all are resized together, each to an independent size); user-defined systems beyond the two "
            "variants (C10 walks that axis for in_base); in-place operations that change the quantity of the object they are applied to "
@@ -88,8 +107,9 @@ def si_of(q):
 GUISES = ("", "_mks", "_cgs")
 
 
-def build_constants(ctx, reg):
-    """the real add_constants on `reg`, the table value of every constant replaced by a symbol -> (ns, V) or (None, V)"""
+def build_constants(ctx, reg, ns=None):
+    """the real add_constants on `reg` (into `ns`, default a fresh dict), the table value of every constant replaced by a symbol
+    -> (ns, V) or (None, V)"""
     US = ctx.mods["US"]
     from unyt._unit_lookup_table import physical_constants as table
     V = {}
@@ -97,7 +117,7 @@ def build_constants(ctx, reg):
     for name, (v0, unit, aliases) in table.items():
         V[name] = ctx.real("v:" + name)
         sym_table[name] = (V[name], unit, aliases)
-    ns = {}
+    ns = {} if ns is None else ns
     saved = US.physical_constants
     US.physical_constants = sym_table
     try:
@@ -110,12 +130,18 @@ def build_constants(ctx, reg):
     return ns, V
 
 
-def check_namespace(ctx, ns, V, reg, cgs_registry, scale_of_unit=None, pre="", observe=True):
+def check_namespace(ctx, ns, V, reg, cgs_registry, scale_of_unit=None, pre="", observe=True, allowed_extra=frozenset(), system_name=None):
     """every obligation of part (b) for one namespace filled by add_constants.
     scale_of_unit(unit string) -> the harness' own figure for the SI size of the table unit in this registry (default: the
     registry's unit object for the table unit, as before)."""
     unyt = ctx.mods["unyt"]
     from unyt._unit_lookup_table import physical_constants as table
+    import sympy
+    S = reg.unit_system if hasattr(reg.unit_system, "units_map") else ctx.mods["US"].unit_system_registry[str(reg.unit_system)]
+    if system_name is not None:
+        # the system the harness asked for, not the one the registry says it has
+        ctx.require(pre + "the registry has the unit system it was given", S is ctx.mods["US"].unit_system_registry[system_name], got=getattr(S, "name", None))
+        S = ctx.mods["US"].unit_system_registry[system_name]
     for name, (v0, unit, aliases) in table.items():
         v = V[name]
         tu = unyt.Unit(unit, registry=reg)
@@ -145,6 +171,16 @@ def check_namespace(ctx, ns, V, reg, cgs_registry, scale_of_unit=None, pre="", o
                 ctx.require(f"{pre}{name}/{role}/base", And(close(payload(q)[0], v * EM_CHARGE_FACTOR), str(q.units) == "statC"), key=nm, got=str(q.units))
             else:
                 ctx.require(f"{pre}{name}/{role}/base", And(close(si_of(q), E), dimvec(q.units.dimensions) == dimvec(tu.dimensions)), key=nm, got=str(q.units))
+                # ... and is written in the units of the registry's system (structural: the symbols of its unit label are symbols the
+                # system declares), unless it has no form there (MKS current in a system without one: stays as tabulated)
+                sys_atoms = set()
+                for uv in S.units_map.values():
+                    if uv is not None:
+                        sys_atoms |= {str(a) for a in sympy.sympify(uv).atoms(sympy.Symbol)}
+                q_atoms = {str(a) for a in q.units.expr.atoms(sympy.Symbol)}
+                stays = "(current_mks)" in dimvec(tu.dimensions) and S.units_map.get(unyt.dimensions.current_mks) is None
+                ctx.require(f"{pre}{name}/{role}/base is in the registry's unit system", (str(q.units) == str(tu)) if stays else q_atoms <= sys_atoms,
+                            key=nm, got=str(q.units), system=sorted(sys_atoms)[:12])
                 if observe:
                     ctx.observe(f"{pre}{nm}", payload(q)[0])
     for old, new in (("hmks", "h_mks"), ("hcgs", "h_cgs")):
@@ -154,7 +190,8 @@ def check_namespace(ctx, ns, V, reg, cgs_registry, scale_of_unit=None, pre="", o
     for name, (v0, unit, aliases) in table.items():
         for nm in [name] + list(aliases):
             expected_keys |= {nm, nm + "_mks"} | (set() if name in IRREDUCIBLE_IN_CGS else {nm + "_cgs"})
-    ctx.require(pre + "namespace has exactly the documented names", set(ns) == expected_keys | {"hmks", "hcgs"}, extra=sorted(set(ns) ^ (expected_keys | {"hmks", "hcgs"}))[:8])
+    ctx.require(pre + "namespace has exactly the documented names", set(ns) - set(allowed_extra) == expected_keys | {"hmks", "hcgs"},
+                extra=sorted((set(ns) - set(allowed_extra)) ^ (expected_keys | {"hmks", "hcgs"}))[:8])
     no_shared_buffers(ctx, ns, pre + "every name has a buffer of its own")
 
 
@@ -166,7 +203,7 @@ def no_shared_buffers(ctx, ns, label):
     bad = []
     for i, (ka, a) in enumerate(items):
         for kb, b in items[i + 1:]:
-            if a is not b and np.shares_memory(a, b):
+            if a is b or np.shares_memory(a, b):     # one object under two keys is the extreme case of a shared buffer
                 bad.append(f"{ka}~{kb}")
     ctx.require(label, not bad, count=len(bad), pairs=bad[:6])
 
@@ -177,8 +214,83 @@ def make_system_case(sysname):
         ns, V = build_constants(ctx, reg)
         if ns is None:
             return
-        check_namespace(ctx, ns, V, reg, sysname == "cgs")
+        check_namespace(ctx, ns, V, reg, sysname == "cgs", system_name=sysname)
     return Case(f"C15/system/{sysname}", h, bounds="39 symbolic values, all names x 3 suffixes", budget_s=600, weight=5, max_paths=16)
+
+
+# ------------------------------------------------------------------------------------------------ how the registry got its system
+# system/* builds the registry with UnitRegistry(unit_system="<name>"). The same configuration can be reached by other spellings;
+# the constants must not depend on which one was used.
+
+ROUTES = ["object", "assigned-name", "assigned-object", "copy", "deepcopy", "lut-copy"]
+
+
+def make_route_case(sysname, route):
+    def h(ctx):
+        import copy
+        UR = ctx.mods["UR"].UnitRegistry
+        S = ctx.mods["US"].unit_system_registry[sysname]
+        if route == "object":
+            reg = UR(unit_system=S)
+        elif route == "assigned-name":
+            reg = UR()
+            reg.unit_system = sysname
+        elif route == "assigned-object":
+            reg = UR()
+            reg.unit_system = S
+        elif route == "copy":
+            reg = copy.copy(UR(unit_system=sysname))
+        elif route == "deepcopy":
+            reg = copy.deepcopy(UR(unit_system=sysname))
+        else:
+            src = UR(unit_system=sysname)
+            reg = UR(lut=src.lut, add_default_symbols=False, unit_system=sysname)
+        ns, V = build_constants(ctx, reg)
+        if ns is None:
+            return
+        check_namespace(ctx, ns, V, reg, sysname == "cgs", observe=False, system_name=sysname)
+    return Case(f"C15/route/{sysname}/{route}", h, bounds="39 symbolic values, all names x 3 suffixes", budget_s=600, weight=5, max_paths=16)
+
+
+# ------------------------------------------------------------------------------------------------ namespace state
+# add_constants writes into a namespace the caller hands in (vars(self) in the documented example; globals() of
+# unyt.physical_constants). What that namespace held before is a configuration axis: the unit symbols of the same registry
+# (add_symbols first - ~20 names are both a unit and a constant), the constants of ANOTHER registry/unit system (a rebuild), or
+# arbitrary values under the very keys. Afterwards every documented key must hold this registry's constant (constants win), and
+# objects handed out by the earlier fill must not have been touched.
+
+PREFILLS = ["symbols", "other-system", "sentinel"]
+
+
+def make_prefilled_case(sysname, prefill):
+    def h(ctx):
+        import numpy as np
+        US = ctx.mods["US"]
+        UR = ctx.mods["UR"]
+        from unyt._unit_lookup_table import physical_constants as table
+        reg = UR.UnitRegistry(unit_system=sysname)
+        ns = {}
+        if prefill == "symbols":
+            US.add_symbols(ns, reg)
+        elif prefill == "other-system":
+            US.add_constants(ns, UR.UnitRegistry(unit_system="mks" if sysname == "cgs" else "cgs"))
+        else:
+            ns.update({k: None for k in documented_keys(table)})
+        old = dict(ns)
+        snap = {k: (float(payload(q)[0]), str(q.units)) for k, q in old.items() if isinstance(q, np.ndarray)}
+        ns2, V = build_constants(ctx, reg, ns=ns)
+        if ns2 is None:
+            return
+        ctx.require("add_constants fills the namespace it was given", ns2 is ns)
+        check_namespace(ctx, ns, V, reg, sysname == "cgs", observe=False, allowed_extra=set(old) - documented_keys(table), system_name=sysname)
+        # what the earlier fill handed out is not what is in the namespace now, and was not touched
+        reused = [k for k, q in old.items() if isinstance(q, np.ndarray) and any(q is v or np.shares_memory(q, v) for v in (ns.get(k), ns.get(k + "_mks"), ns.get(k + "_cgs")) if isinstance(v, np.ndarray))]
+        ctx.require("objects of the earlier fill are not reused", not reused, keys=reused[:6])
+        changed = [k for k, (x, u) in snap.items() if float(payload(old[k])[0]) != x or str(old[k].units) != u]
+        ctx.require("objects of the earlier fill are untouched", not changed, keys=changed[:6])
+        kept = [k for k in set(old) - documented_keys(table) if ns.get(k) is not old[k]]
+        ctx.require("other keys of the namespace are left alone", not kept, keys=sorted(kept)[:6])
+    return Case(f"C15/namespace/{sysname}/{prefill}", h, bounds="39 symbolic values, all names x 3 suffixes, namespace pre-filled", budget_s=600, weight=5, max_paths=16)
 
 
 # ------------------------------------------------------------------------------------------------ registry configurations
@@ -291,7 +403,7 @@ def make_registry_case(sysname, cfg):
         if ns is None:
             return
         check_namespace(ctx, ns, V, reg, sysname == "cgs", scale_of_unit=lambda u: own_scale(u, lambda sym: Sc.get(sym, T.rows[sym][0])),
-                        observe=False)
+                        observe=False, system_name=sysname)
         # the sizes the registry reports for the resized rows are the new ones (the oracle above does not read them)
         unyt = ctx.mods["unyt"]
         for sym, s in Sc.items():
@@ -388,6 +500,7 @@ def make_inplace_case(sysname, op):
             unit_of = {g: str(ns[name + g].units) for g in GUISES if name + g in ns}   # read before anything is converted
             target = {"": unit, "_mks": unit_of.get("_cgs", unit_of.get("", unit)), "_cgs": unit_of.get("", unit)}
             memo = {}
+            label = {e: str(ns[e[0] + e[1]].units) for e in entries}
             for nm, g in entries:
                 q = ns[nm + g]
                 if op == "to_mks":
@@ -406,6 +519,11 @@ def make_inplace_case(sysname, op):
                     legit = isinstance(r[1], NR) and has_current and (op == "to_cgs" or (op == "to_base" and sysname == "cgs"))
                     ctx.require(f"{name}/{op}/{role}/runs", legit, key=nm + g, exc=type(r[1]).__name__, msg=str(r[1])[:120])
                 conds = []
+                label[(nm, g)] = str(q.units)
+                moved = [n2 + g2 for n2, g2 in entries if str(ns[n2 + g2].units) != label[(n2, g2)]]
+                # the conversion relabels the object it was called on and no other: a sibling that is the same object under another
+                # key (or shares its unit attribute) would silently leave the unit system its name promises (X_mks in CGS units)
+                ctx.require(f"{name}/{op}/{role}/siblings keep their units", not moved, key=nm + g, moved=moved[:6])
                 for n2, g2 in entries:
                     q2 = ns[n2 + g2]
                     x2 = payload(q2)[0]
@@ -464,22 +582,65 @@ def make_relations_case():
     return Case("C15/ground/relations", h, bounds="18 defining relations + 3 cross-ratio relations + 39 values (ground, exact rationals)")
 
 
+def documented_keys(table):
+    """every key add_constants is documented to write: names and aliases x {X, X_mks, X_cgs (where a CGS form exists)} + hmks/hcgs"""
+    keys = {"hmks", "hcgs"}
+    for name, (v0, unit, aliases) in table.items():
+        for nm in [name] + list(aliases):
+            keys |= {nm, nm + "_mks"} | (set() if name in IRREDUCIBLE_IN_CGS else {nm + "_cgs"})
+    return keys
+
+
 def make_default_case():
-    """the default constants (unyt.physical_constants, top level) are the table values; alias objects equal"""
+    """the default constants (unyt.physical_constants, top level) are the table values under EVERY name x guise (X, X_mks, X_cgs,
+    hmks/hcgs); the module exports exactly the documented names; every one of them is the same object at top level (constants win
+    over units of the same name); no two share memory. Ground: the default namespace is built at import from the table floats;
+    the for-all-values statement about add_constants is system/mks."""
     def h(ctx):
+        import numpy as np
         unyt = ctx.mods["unyt"]
         from unyt._unit_lookup_table import physical_constants as table
         pcm = vars(unyt.physical_constants)
+        top_ns = vars(unyt)
         for name, (v0, unit, aliases) in table.items():
             tu = unyt.Unit(unit)
+            tdim = dimvec(tu.dimensions)
+            E = float(v0) * float(tu.base_value)
+            em = str(tu.expr) == "C"
             for nm in [name] + list(aliases):
+                role = "name" if nm == name else "alias"
                 qd = pcm.get(nm)
-                ok = qd is not None and And(close(si_of(qd), float(v0) * float(tu.base_value)), dimvec(qd.units.dimensions) == dimvec(tu.dimensions))
-                ctx.require(f"default/{name}/{'name' if nm == name else 'alias'}", ok, key=nm)
-                top = vars(unyt).get(nm)
-                ctx.require(f"top-level/{name}/{'name' if nm == name else 'alias'}", top is qd, key=nm, got=type(top).__name__)
+                ok = qd is not None and And(close(si_of(qd), E), dimvec(qd.units.dimensions) == tdim)
+                ctx.require(f"default/{name}/{role}", ok, key=nm)
+                top = top_ns.get(nm)
+                ctx.require(f"top-level/{name}/{role}", top is qd, key=nm, got=type(top).__name__)
+                # X_mks: the table number in the table unit, literally
+                qm = pcm.get(nm + "_mks")
+                ok = qm is not None and And(close(payload(qm)[0], float(v0), tol=1e-12), str(qm.units) == str(tu), close(si_of(qm), E))
+                ctx.require(f"default/{name}/{role}/_mks", ok, key=nm + "_mks", got=str(qm) if qm is not None else None)
+                ctx.require(f"top-level/{name}/{role}/_mks", top_ns.get(nm + "_mks") is qm, key=nm + "_mks")
+                # X_cgs: the same quantity (charges: the documented Gaussian reading), absent where no CGS form is documented
+                qc = pcm.get(nm + "_cgs")
+                if name in IRREDUCIBLE_IN_CGS:
+                    ok = qc is None and nm + "_cgs" not in top_ns
+                elif qc is None:
+                    ok = False
+                elif em:
+                    ok = And(close(payload(qc)[0], float(v0) * EM_CHARGE_FACTOR), str(qc.units) == "statC")
+                else:
+                    ok = And(close(si_of(qc), E), dimvec(qc.units.dimensions) == tdim)
+                ctx.require(f"default/{name}/{role}/_cgs", ok, key=nm + "_cgs", got=str(qc) if qc is not None else None)
+                if qc is not None:
+                    ctx.require(f"top-level/{name}/{role}/_cgs", top_ns.get(nm + "_cgs") is qc, key=nm + "_cgs")
+        for old, new in (("hmks", "h_mks"), ("hcgs", "h_cgs")):
+            a, b = pcm.get(old), pcm.get(new)
+            ctx.require(f"default/h/legacy/{old}", a is not None and b is not None and And(close(payload(a)[0], payload(b)[0], tol=1e-12), str(a.units) == str(b.units))
+                        and top_ns.get(old) is a, key=old)
+        have = {k for k, v in pcm.items() if isinstance(v, (np.ndarray, unyt.Unit))}
+        want = documented_keys(table)
+        ctx.require("default/module exports exactly the documented names", have == want, extra=sorted(have ^ want)[:8])
         no_shared_buffers(ctx, pcm, "default/every name has a buffer of its own")
-    return Case("C15/ground/default-namespace", h, bounds="39 constants x names (ground)")
+    return Case("C15/ground/default-namespace", h, bounds="39 constants x names x {X, X_mks, X_cgs} + legacy names, module and top level (ground)")
 
 
 def both_names(mods):
@@ -531,6 +692,9 @@ def cases(tier, mods):
     _TIER["tier"] = tier
     check_names(mods, USER_NAMES)
     out = [make_system_case(s) for s in SYSTEMS]
+    pre_systems = SYSTEMS
+    out += [make_prefilled_case(s, pf) for s in pre_systems for pf in PREFILLS]
+    out += [make_route_case(s, r) for s in SYSTEMS for r in ROUTES]
     out += [make_registry_case(s, cfg) for s in SYSTEMS for cfg in ("edit", "edit-after-use")]
     out += [make_user_system_case(v) for v in ("U1", "U2")]
     out += [make_inplace_case(s, op) for s in SYSTEMS for op in INPLACE_OPS]
